@@ -796,7 +796,8 @@ def bitreader_primitives_rule(prog, run, rule):
     (AV1 4.10.3: leadingZeros zero bits, a one bit, leadingZeros value bits => 2*lz+1 bits consumed) and for 32 (no value bits)."""
     from .. import minieval as E
     u = prog.lib
-    adts = [k for k in u.adts if k.endswith("codec::av1::BitReader")]
+    adts = [k for k, a in u.adts.items() if k.startswith("codec::av1::") and a.get("kind") == "Struct" and
+            sorted(f["name"] for f in a["variants"][0]["fields"]) == ["bit_pos", "byte_pos", "data"]]
     if len(adts) != 1:
         run.bad(rule, "anchor BitReader", "bit reader type not found")
         return
@@ -804,11 +805,19 @@ def bitreader_primitives_rule(prog, run, rule):
     names = [f["name"] for f in u.adts[adt]["variants"][0]["fields"]]
     methods = {}
     for k, b in u.bodies.items():
-        if b["in_test_cfg"]:
+        if b["in_test_cfg"] or b.get("kind") == "Closure":
             continue
         n = mir.norm(k)
-        if n.startswith("codec::av1::BitReader::"):
-            methods[n.split("::")[-1]] = k
+        if n.startswith(mir.norm(adt) + "::"):
+            # by signature, so that renaming the private methods does not lose the anchor
+            tys = [b["locals"][i]["ty"] for i in range(1, b["argc"] + 1)]
+            ret = b["locals"][0]["ty"]
+            if len(tys) == 1 and tys[0].startswith("&mut") and ret == "std::option::Option<bool>":
+                methods["read_bit"] = k
+            elif len(tys) == 2 and tys[0].startswith("&mut") and tys[1] == "usize" and ret == "std::option::Option<u64>":
+                methods["read_bits"] = k
+            elif len(tys) == 2 and tys[0].startswith("&mut") and tys[1] == "usize" and ret == "std::option::Option<()>":
+                methods["skip_bits"] = k
     uv = [k for k, b in u.bodies.items() if not b["in_test_cfg"] and b["argc"] == 1 and "BitReader" in b["locals"][1]["ty"] and b["locals"][0]["ty"].startswith("std::option::Option<") and
           mir.norm(k).startswith("codec::av1::") and not mir.norm(k).startswith("codec::av1::BitReader::") and b.get("kind") != "Closure" and
           k in u.hir and BR._has_open_loop(u.hir[k]["body"])]      # the helper with a `loop`/`while` over read_bit: the variable-length code
